@@ -1,34 +1,86 @@
 (* C29 -- Session lifecycle commands take effect exactly as documented.
-   Property theorems only; the machine is Model/Controller.v, the checkers
-   (monitors over observable events) are Model/ControllerCheck.v. Every theorem
-   quantifies over the session's mode and watch configuration and over every
-   schedule of the machine: commands called at any time and overlapping in any
-   way, every environment outcome (connection results, poll events, scan,
-   staging and transition results, timers). *)
+
+   Property theorems only. The machine is Model/Controller.v (controller.go and
+   the part of manager.go that drives it, as a transition system); the checkers
+   are the monitors of Model/ControllerCheck.v, which read observable events
+   only and are the functions applied to the histories recorded from the real
+   Manager. Every "for every schedule" theorem quantifies over the session's
+   mode, the watch configuration and every schedule of the machine: commands
+   called at any time and overlapping in any way, every environment outcome
+   (connection results, poll events, scan / staging / transition results,
+   timers, failures).
+
+   Shape: (1) every trace of the machine passes each monitor; (2) what passing
+   a monitor means, stated on the event list (soundness of the checker);
+   (3) model-level statements that need internal events. *)
 From Coq Require Import List Bool Arith String.
 Import ListNotations.
 From Mv Require Import Model.Entry Model.Reconcile Model.Safety Model.Controller Model.ControllerCheck
-     Proof.ControllerBase Proof.ControllerPause Proof.ControllerTerminate Proof.ControllerFlush Proof.ControllerReset Proof.Controller.
+     Proof.ControllerBase Proof.ControllerPause Proof.ControllerTerminate Proof.ControllerFlush
+     Proof.ControllerReset Proof.ControllerSaved Proof.ControllerSound Proof.Controller.
 Local Open Scope list_scope.
 
-(* After Pause (or Create paused) returns nil -- no Resume having been active
-   during its interval -- no Connect and no endpoint method entry or exit
-   occurs and the persisted session never shows Paused = false, until a Resume
-   is called; a manager restart in between changes nothing (the pause monitor
-   keeps its conclusion across Nm). *)
+(* ---------------------------------------------------------------- pause *)
+
+(* c29_pause_quiet + c29_pause_persists. For every schedule the trace passes
+   the pause monitor: after Pause (or Create paused) returns nil -- no Resume
+   having been active during its interval -- there is no Connect and no
+   endpoint method entry or exit, and the persisted session is never seen with
+   Paused = false, until a Resume is called; a manager restart in between (Nm)
+   does not end this. After a Resume the monitor claims nothing, and
+   NewManager starts a loop exactly when the persisted flag says unpaused
+   (Model/Controller.v, ANewManager). *)
 Theorem c29_pause_quiet_persists : forall md manual sched st tr,
   run (init_state md manual) sched = Some (st, tr) -> check_pause tr = true.
 Proof. exact run_pause. Qed.
 
-(* After Terminate returns nil: the session file is absent, no endpoint
-   activity ever occurs again, every command called afterwards fails, a new
-   manager does not load the session -- and the archive file is absent as well
-   unless a Reset overlapped the Terminate (lenient form). *)
+(* what passing the pause monitor means *)
+Theorem c29_pause_sound : forall pre t c mid1 mid2,
+  check_pause (pre ++ Ca t c :: mid1 ++ Rt t c true :: mid2) = true ->
+  is_pause c = true ->
+  any_active is_resume (acts pre) = false ->
+  no_resume_call (mid1 ++ mid2) ->
+  (forall c' ok, ~ In (Rt t c' ok) mid1) -> (forall c', ~ In (Ca t c') mid1) ->
+  forall e, In e mid2 -> is_endpoint e = false /\ e <> ObS true (Some false).
+Proof. exact pause_sound. Qed.
+
+(* ---------------------------------------------------------------- flush *)
+
+(* c29_flush_wait. For every schedule: Flush(wait) returns nil only after full
+   scans of both endpoints, entered after its call, have returned successfully
+   (the request is taken in the polling select only, and sets the full-scan
+   flag). *)
+Theorem c29_flush_wait : forall md manual sched st tr,
+  run (init_state md manual) sched = Some (st, tr) -> check_flush tr = true.
+Proof. exact run_flush. Qed.
+
+Theorem c29_flush_sound : forall pre t mid post,
+  check_flush (pre ++ Ca t (CFlush true) :: mid ++ Rt t (CFlush true) true :: post) = true ->
+  (forall ok, ~ In (Rt t (CFlush true) ok) mid) -> (forall c, ~ In (Ca t c) mid) ->
+  (exists a, In (Sn Alpha true a) mid) /\ (exists a, In (Sn Beta true a) mid) /\
+  (exists r c, In (Sx Alpha true r c) mid) /\ (exists r c, In (Sx Beta true r c) mid).
+Proof. exact flush_sound. Qed.
+
+(* ... and the answered cycle ran to the save step before the answer: once
+   Flush(wait) has returned nil after exactly one scan per side since its call
+   and with no lifecycle command active, the archive file does not change any
+   more until the next scan is entered or a lifecycle command is called. *)
+Theorem c29_flush_saved_before_answer : forall md manual sched st tr,
+  run (init_state md manual) sched = Some (st, tr) -> check_saved tr = true.
+Proof. exact run_saved. Qed.
+
+(* ------------------------------------------------------------ terminate *)
+
+(* c29_terminate, partial. For every schedule: after Terminate returns nil the
+   session file is absent, no endpoint activity ever occurs again, every
+   command called afterwards fails, a new manager does not load the session;
+   and the archive file is absent too unless a Reset overlapped the Terminate
+   (lenient form). *)
 Theorem c29_terminate_partial : forall md manual sched st tr,
   run (init_state md manual) sched = Some (st, tr) -> check_terminate false tr = true.
 Proof. exact run_terminate_lenient. Qed.
 
-(* full statement: also the archive file is absent after Terminate *)
+(* the full statement: also the archive file is absent after Terminate *)
 Definition c29_terminate_full_statement : Prop :=
   forall md manual sched st tr,
     run (init_state md manual) sched = Some (st, tr) -> check_terminate true tr = true.
@@ -49,21 +101,29 @@ Theorem c29_terminate_refuted :
                 /\ arch_file st = Some None /\ sess_file st = None.
 Proof. exact terminate_strict_refuted. Qed.
 
-(* Flush(wait) returns nil only if, after its call, a full scan (the flush flag
-   forces full = true) was entered on alpha and on beta and both returned
-   successfully. *)
-Theorem c29_flush_wait : forall md manual sched st tr,
-  run (init_state md manual) sched = Some (st, tr) -> check_flush tr = true.
-Proof. exact run_flush. Qed.
+Theorem c29_terminate_sound : forall strict pre t post,
+  check_terminate strict (pre ++ Rt t CTerminate true :: post) = true ->
+  forall e, In e post ->
+    is_endpoint e = false /\ (forall s, e <> ObS true (Some s)) /\ e <> Nm true /\
+    (strict = true -> forall a n, e <> ObA true (Some a) n).
+Proof. exact terminate_sound. Qed.
 
-(* Reset is safe. (a) In every reachable state, the step on which a Reset
-   writes the archive is taken while no loop exists, and what it writes is the
-   empty archive. (b) No step of a command thread (Reset included) enters or
-   leaves an endpoint method; only loop steps do. (c) Observable form, checked
-   on the recorded histories as well: after an undisturbed Reset returns nil,
-   with no scan entered during its interval, the archive file holds the empty
-   archive until the next scan is entered, and the next scan on each side is
-   given the empty ancestor. *)
+Theorem c29_terminate_sound_later_commands_fail : forall strict pre t mid t' c post,
+  check_terminate strict (pre ++ Rt t CTerminate true :: mid ++ Ca t' c :: post) = true ->
+  c <> CShutdown -> forall c', ~ In (Rt t' c' true) post.
+Proof. exact terminate_sound_late. Qed.
+
+(* ---------------------------------------------------------------- reset *)
+
+(* c29_reset_safe. (a) In every reachable state, the step on which a Reset
+   writes the archive is taken while no loop exists, and it writes the empty
+   archive. (b) No step of a command thread (Reset included) enters or leaves
+   an endpoint method; only loop steps do. (c) For every schedule the trace
+   passes the reset monitor: after an undisturbed Reset returns nil, no scan
+   having been entered during its interval, the archive file holds the empty
+   archive until the next scan is entered and the next scan on each side is
+   given the empty ancestor. (That the following two-way-safe cycle, whose
+   ancestor is empty, plans no deletion or overwrite is C01 with anc = None.) *)
 Theorem c29_reset_safe_write : forall md manual sched st tr a st' evs x,
   run (init_state md manual) sched = Some (st, tr) ->
   step st a = Some (st', evs) -> In (IWriteArchive true x) evs ->
@@ -79,11 +139,50 @@ Theorem c29_reset_safe : forall md manual sched st tr,
   run (init_state md manual) sched = Some (st, tr) -> check_reset tr = true.
 Proof. exact run_reset. Qed.
 
+(* ------------------------------------------------- the checker as a whole *)
+
+(* the model's own traces pass the checker that is applied to the recorded
+   histories: the lenient form always, the strict form outside the known
+   class; and the class predicate computed by the harness (only the strict
+   terminate monitor rejects) lies inside the class of the refutation *)
+Theorem c29_model_passes_checker : forall md manual sched st tr,
+  run (init_state md manual) sched = Some (st, tr) -> check_c29_lenient md tr = true.
+Proof. exact run_check_c29_lenient. Qed.
+
+Theorem c29_model_passes_strict_checker : forall md manual sched st tr,
+  run (init_state md manual) sched = Some (st, tr) -> reset_overlapped_terminate tr = false ->
+  check_c29_events md tr = true.
+Proof. exact run_check_c29. Qed.
+
+Theorem c29_known_class : forall md tr,
+  known_c29_events md tr = true -> reset_overlapped_terminate tr = true.
+Proof. exact known_class_is_overlap. Qed.
+
+(* the hypotheses are satisfiable on a non-trivial execution: create, a cycle,
+   pause while polling, a flush refused while paused, restart, resume, a
+   waiting flush answered after a full cycle, terminate, a resume refused *)
+Example c29_example :
+  exists st tr, run (init_state TwoWaySafe false) lifecycle_schedule = Some (st, tr)
+                /\ In (Rt 2 CPause true) tr /\ In (Rt 3 (CFlush true) false) tr /\ In (Nm true) tr
+                /\ In (Rt 5 CResume true) tr /\ In (Rt 6 (CFlush true) true) tr /\ In (Rt 7 CTerminate true) tr
+                /\ In (Rt 8 CResume false) tr
+                /\ sess_file st = None /\ arch_file st = None /\ loop st = None
+                /\ check_c29_events TwoWaySafe tr = true.
+Proof. exact lifecycle_example. Qed.
+
 Print Assumptions c29_pause_quiet_persists.
-Print Assumptions c29_reset_safe_write.
-Print Assumptions c29_reset_safe_no_endpoint_call.
-Print Assumptions c29_reset_safe.
+Print Assumptions c29_pause_sound.
 Print Assumptions c29_flush_wait.
+Print Assumptions c29_flush_sound.
+Print Assumptions c29_flush_saved_before_answer.
 Print Assumptions c29_terminate_partial.
 Print Assumptions c29_terminate_outside_known_class.
 Print Assumptions c29_terminate_refuted.
+Print Assumptions c29_terminate_sound.
+Print Assumptions c29_terminate_sound_later_commands_fail.
+Print Assumptions c29_reset_safe_write.
+Print Assumptions c29_reset_safe_no_endpoint_call.
+Print Assumptions c29_reset_safe.
+Print Assumptions c29_model_passes_checker.
+Print Assumptions c29_model_passes_strict_checker.
+Print Assumptions c29_known_class.
